@@ -143,6 +143,12 @@ func (a *aliasProg) needFunc(name string) {
 			gen.Decl{Name: "q", T: tBool, Init: call("str2bool", tBool, sl("true"))},
 			printCall(sl("report after"), vr("flag", tBool), vr("msg", tStr), vr("q", tBool)),
 		}})
+	case "newboard": // a literal made of literals only: every evaluation gives fresh containers
+		a.fdefs = append(a.fdefs, gen.FuncDef{Name: name, Ret: tArrAN, Body: []gen.Stmt{gen.Return{Val: arrLit(tArrAN, arrLit(tArrN, nl(0), nl(0)), arrLit(tArrN, nl(0), nl(0)))}}})
+	case "newconf":
+		tMM := gen.MapOf(tMapN)
+		a.fdefs = append(a.fdefs, gen.FuncDef{Name: name, Ret: tMM, Body: []gen.Stmt{gen.Return{Val: gen.MapLit{T: tMM, Keys: []string{"pos", "size"}, Vals: []gen.Expr{
+			gen.MapLit{T: tMapN, Keys: []string{"x", "y"}, Vals: []gen.Expr{nl(0), nl(0)}}, gen.MapLit{T: tMapN, Keys: []string{"w"}, Vals: []gen.Expr{nl(1)}}}}}}})
 	case "seterr": // a failing or succeeding conversion rewrites err/errmsg in place
 	}
 }
@@ -160,7 +166,7 @@ func (a *aliasProg) prelude() {
 	a.show()
 }
 
-const c09Creates = 34
+const c09Creates = 36
 const c09Updates = 14
 
 // create adds an alias-creating step of the given kind; returns false if not applicable.
@@ -322,6 +328,32 @@ func (a *aliasProg) create(kind int) bool {
 		name := a.fresh("f")
 		a.declare(name, tArrAN, gen.Binary{Op: "*", L: vr("nn", tArrAN), R: nl(2), T: tArrAN})
 		a.stmts = append(a.stmts, gen.Assign{Target: gen.Index{X: gen.Index{X: vr(name, tArrAN), I: nl(0), T: tArrN}, I: nl(0), T: tNum}, Val: nl(99)})
+	case 34: // a constant nested array literal evaluated several times (function, loop): independent results
+		a.needFunc("newboard")
+		b1, b2 := a.fresh("bd"), a.fresh("bd")
+		a.declare(b1, tArrAN, call("newboard", tArrAN))
+		a.stmts = append(a.stmts, gen.Assign{Target: gen.Index{X: gen.Index{X: vr(b1, tArrAN), I: nl(0), T: tArrN}, I: nl(0), T: tNum}, Val: nl(1)})
+		a.declare(b2, tArrAN, call("newboard", tArrAN))
+		a.stmts = append(a.stmts, gen.Assign{Target: gen.Index{X: gen.Index{X: vr(b2, tArrAN), I: nl(1), T: tArrN}, I: nl(1), T: tNum}, Val: nl(2)})
+		all := a.fresh("bds")
+		a.typed(all, gen.ArrOf(tArrAN))
+		a.stmts = append(a.stmts, gen.For{Var: "rnd", VarT: tNum, Args: []gen.Expr{nl(3)}, Body: []gen.Stmt{
+			gen.Decl{Name: "fresh", T: tArrAN, Init: arrLit(tArrAN, arrLit(tArrN, nl(7), nl(7)), arrLit(tArrN, nl(7)))},
+			gen.Assign{Target: gen.Index{X: gen.Index{X: vr("fresh", tArrAN), I: nl(0), T: tArrN}, I: nl(0), T: tNum}, Val: vr("rnd", tNum)},
+			gen.Assign{Target: vr(all, gen.ArrOf(tArrAN)), Val: gen.Binary{Op: "+", L: vr(all, gen.ArrOf(tArrAN)), R: arrLit(gen.ArrOf(tArrAN), vr("fresh", tArrAN)), T: gen.ArrOf(tArrAN)}},
+		}})
+		a.declare(a.fresh("bd"), tArrAN, call("newboard", tArrAN))
+	case 35: // the same for map literals with nested map literals
+		tMM := gen.MapOf(tMapN)
+		a.needFunc("newconf")
+		c1, c2 := a.fresh("cf"), a.fresh("cf")
+		a.declare(c1, tMM, call("newconf", tMM))
+		a.stmts = append(a.stmts, gen.Assign{Target: gen.Dot{X: gen.Dot{X: vr(c1, tMM), Key: "pos", T: tMapN}, Key: "x", T: tNum}, Val: nl(5)},
+			gen.Assign{Target: gen.Dot{X: gen.Dot{X: vr(c1, tMM), Key: "pos", T: tMapN}, Key: "z", T: tNum}, Val: nl(6)},
+			gen.CallStmt{C: call("del", gen.TNone, gen.Dot{X: vr(c1, tMM), Key: "size", T: tMapN}, sl("w"))})
+		a.declare(c2, tMM, call("newconf", tMM))
+		a.stmts = append(a.stmts, gen.Assign{Target: gen.Dot{X: gen.Dot{X: vr(c2, tMM), Key: "pos", T: tMapN}, Key: "y", T: tNum}, Val: nl(9)})
+		a.declare(a.fresh("cf"), tMM, call("newconf", tMM))
 	case 31: // the loop variable over an array of composites is stored and reassigned inside the body
 		tArrM := gen.ArrOf(tMapN)
 		picked, spare, rows := a.fresh("p"), a.fresh("sp"), a.fresh("rw")
